@@ -114,7 +114,7 @@ def reiteration(ck, w):
                 if not ok:
                     bad += 1
                     symptom = "silently-ignored-read-becomes-undefined" if (rep["rc"] == 0 and len(rep["calls"]) == 1 and
-                                                                         [m[:2] for m in rep["t"] if m[1] != "default:u8"] == [m[:2] for m in ref["t"] if m[1] != "default:u8"]) else "other"
+                                                                         [m[:2] for m in rep["t"] if m[1:2] != ["default:u8"]] == [m[:2] for m in ref["t"] if m[1:2] != ["default:u8"]]) else "other"
                     ck.violation("C13:reiteration:not-ready-during-rule-evaluation:" + symptom,
                                  dict(buffer=buf.decode(), blocks=parts, command=base + " nr=" + nr, uninterrupted=ref, interrupted=rep,
                                       note="docs/capi.rst says an iterator must not report not-ready once a full pass completed; the property's quantifier includes it"))
